@@ -206,11 +206,25 @@ def _record_fault(job):
                 fault["scan"], fault["scan_raised"] = scan, 0
             except BaseException:
                 fault["scan"], fault["scan_raised"] = [], 1
+            # the index right after the fault: if it claims to be valid it must mirror the object's own storage
+            fault["valid"] = d.valid()
+            fault["ix"] = d.index_obs(fault["scan"], []) if not fault["scan_raised"] else {"n": 0, "q": [], "live": [], "fresh": []}
             rr = []
             for ra in reads:
                 e2, r2 = d.execute(ra)
                 rr.append({"a": ra, "exc": e2, "res": r2})
             fault["reads"] = rr
+            # a later rewrite on the same object: remove the first point of the scan by its instant
+            rm = {"a": {"op": "remove", "q": {"k": "time", "key": 0, "key2": 0, "mf": 0, "op": "eq",
+                                              "v": fault["scan"][0]["t"] if fault["scan"] else 0, "tf": 0}, "m": -1}}
+            if fault["scan"] and fault["scan"][0]["t"] < 0:
+                rm["a"]["q"]["op"] = "noop"
+            rm["exc"], rm["res"] = d.execute(rm["a"])
+            try:
+                rm["scan"], rm["scan_raised"] = [d.abs_point(p) for p in list(iter(d.db))], 0
+            except BaseException:
+                rm["scan"], rm["scan_raised"] = [], 1
+            fault["rm"] = rm
             e3, r3 = d.execute({"op": "insert", "p": extra, "m": -1, "compact": 0})
             fault["ins_ok"] = 0 if e3 else 1
             fault["extra"] = extra
@@ -266,6 +280,9 @@ def adapt_op(a, store):
         q = {"k": "not", "a": q}
     elif (r // 50) % 4 == 1 and "q" in a:
         q = {"k": "and", "a": q, "b": a["q"]} if (r // 200) % 2 else {"k": "or", "a": q, "b": a["q"]}
+    if a.get("negfield") and "q" in a and a["q"]["k"] == "and":
+        nf = a["q"]["b"] if a["q"]["b"]["k"] == "not" else a["q"]["a"]
+        q = {"k": "and", "a": q, "b": nf} if (r // 3) % 2 else {"k": "and", "a": nf, "b": q}
     a["q"] = q
     return a
 
